@@ -1,0 +1,14 @@
+//go:build verif
+
+// Ghost lemmas for the govc verifier (/verif). This file is guarded by the build tag "verif": nothing in it is
+// ever compiled into fabio. Each function is a statement (its contract in contracts_verif.go) with its proof (its body).
+package cert
+
+// lemmaWildJoin: if the first k labels are what wildcard candidate i prescribes ("*" for the first i+1 labels, the
+// name's own label after that), joining them with "." gives the first k labels of that candidate.
+func lemmaWildJoin(labels []string, name string, i, k int) {
+	if k <= 1 {
+		return
+	}
+	lemmaWildJoin(labels, name, i, k-1)
+}
